@@ -214,6 +214,22 @@ impl Property for RefProp {
     }
 
     fn check_case(&self, case: &Json, stats: &mut Stats) -> Verdict {
+        if case["kind"].as_str() == Some("probe") {
+            // a fixed program with its documented outcome and a signature of its own
+            let text = case["text"].as_str().unwrap_or("");
+            let expected = case["expected"].as_str().unwrap_or("");
+            stats.eval();
+            stats.nontrivial(text);
+            let (shown, _) = observe(text);
+            return if shown == expected {
+                Verdict::Pass
+            } else {
+                fail(
+                    case["sig"].as_str().unwrap_or("probe").to_string(),
+                    format!("probe `{text}`\n  documented: {expected}\n  real:       {shown}"),
+                )
+            };
+        }
         if let Some(labels) = case["labels"].as_array() {
             for l in labels {
                 stats.label(&format!("construct: {}", l.as_str().unwrap_or("?")));
@@ -299,8 +315,30 @@ impl Property for RefProp {
     }
 }
 
+/// (properties, signature tail, program, documented outcome)
+const PROBES: [(&[&str], &str, &str, &str); 2] = [
+    (
+        &["C04", "C07"],
+        "closure-creation-folds-failing-operation",
+        "x := struct{n := 0}.n; f := (() -> int { return 1 / x; }); 5",
+        "value 5",
+    ),
+    (
+        &["C04"],
+        "closure-creation-folds-failing-operation-literal-twin",
+        "v := if 0 == 1 { 64 } else { 0 }; g := (() -> int { return 3 / (v << 5); }); 7",
+        "value 7",
+    ),
+];
+
 pub fn run(session: &Session, prop: &'static RefProp, rule: &str) -> i32 {
     crate::engine::run_regressions(session, prop);
+    // probes of recorded findings (each keeps its own signature)
+    for (ids, sig_tail, text, expected) in PROBES {
+        if ids.contains(&prop.id) && !session.stopped() {
+            session.run_one(prop, &json!({"kind": "probe", "sig": format!("{}:probe:{sig_tail}", prop.id), "text": text, "expected": expected}));
+        }
+    }
     if prop.id == "C13" && !session.stopped() {
         crate::props::soundness::run_cells(session);
     }
